@@ -205,10 +205,16 @@ pub(crate) fn encode_internal<W: Write, S: Borrow<Schema>>(
         Value::Enum(i, _) => encode_int(*i as i32, writer),
         Value::Union(idx, item) => {
             if let Schema::Union(ref inner) = *schema {
-                let inner_schema = inner
-                    .schemas
-                    .get(*idx as usize)
-                    .expect("Invalid Union validation occurred");
+                // (the index can be out of range although the value was validated: a bare record in a
+                // union position is tried against every record branch of that union in turn)
+                let inner_schema =
+                    inner
+                        .schemas
+                        .get(*idx as usize)
+                        .ok_or(Details::GetUnionVariant {
+                            index: *idx as i64,
+                            num_variants: inner.schemas.len(),
+                        })?;
                 let index_bytes = encode_long(*idx as i64, &mut *writer)?;
                 Ok(index_bytes
                     + encode_internal(
